@@ -178,6 +178,17 @@ inline void apply_op(Scenario& s, const Corpus& corpus, const std::vector<std::s
       sim::Rng r((uint64_t)num(4));
       for (auto& c : ins) c = kind == "nul" ? '\0' : kind == "cr" ? '\r' : kind == "nl" ? '\n' : kind == "space" ? ' ' : kind == "hash" ? '#' : (char)r.below(256);
       if (d.size() + n <= 70000) { d.insert(p, ins); damaged("insert_bytes"); }
+   } else if (op == "bulk") {
+      // bulk LINE N: the chosen line repeated N times (thousands of entries with the same key / of identical block
+      // definitions: what quadratic duplicate handling or per-line bookkeeping would choke on)
+      auto ls = line_starts(d);
+      if (d.empty()) return;
+      const size_t a = (size_t)(((num(1) % (long long)ls.size()) + (long long)ls.size()) % (long long)ls.size());
+      const size_t ab = ls[a], ae = (a + 1 < ls.size()) ? ls[a + 1] : d.size();
+      std::string l = d.substr(ab, ae - ab); if (l.empty() || l.back() != '\n') l += '\n';
+      size_t n = (size_t)std::min<long long>(std::max<long long>(1, num(2)), 20000);
+      if (d.size() + n * l.size() > 70000) n = d.size() >= 70000 ? 0 : (70000 - d.size()) / l.size();
+      if (n) { std::string rep; rep.reserve(n * l.size()); for (size_t i = 0; i < n; ++i) rep += l; d.insert(ab, rep); damaged("bulk_repeated_line"); }
    } else if (op == "crlf") {
       // the document as a DOS text file (every LF becomes CR LF); "crlf mac" = CR only
       std::string nd; nd.reserve(d.size() + d.size() / 16);
@@ -427,7 +438,8 @@ inline std::vector<std::string> gen_plan(const Corpus& corpus, uint64_t seed, st
       }
    };
    auto struct_op = [&]() -> std::string {
-      switch (r.below(15)) {
+      switch (r.below(16)) {
+      case 15: return "bulk " + std::to_string(r.below(400)) + " " + std::to_string(r.chance(0.5) ? 1 + r.below(200) : 1000 + r.below(8000));
       case 12: case 13: case 14: return "scale " + std::to_string(r.below(400)) + " " + std::to_string(1 + r.below(3)) + " " + std::to_string(r.below(N_SCALE));
       case 10: return "idx " + std::to_string(r.below(400)) + " " + std::to_string(r.below(2)) + " " + std::to_string(r.below(15));
       case 11: return "blowline " + std::to_string(r.below(400)) + " " + std::to_string(r.chance(0.5) ? r.below(40) : r.below(6000));
